@@ -547,6 +547,10 @@ class Executor:
             return self.coerce(
                 st, self.list_lit([], TOpt(TAny)), TAny,
             )
+        if isinstance(x, PyOpaque) and x.name == 'set()' \
+                and isinstance(ty, TSet):
+            return V(self.S.sort(ty).mk(
+                z3.K(self.S.sort(ty.elem), False), z3.IntVal(0)), ty)
         v = self.as_v(st, x)
         if v.ty == ty:
             return v
